@@ -48,6 +48,7 @@ type interpreter struct {
 	overrides          map[string]value // function name -> replacement function value
 	crashed            bool
 	sched              *scheduler
+	deadlockMsg        string // set by verifNoDeadlock: deadlocks are violations
 	callDepth          int
 	syncSt             *syncState
 	lastNow            value
